@@ -159,8 +159,9 @@ func exec(s *Scenario, guard bool) (ms []core.Mismatch) {
 	for ri, rule := range rules {
 		p := build(s)
 		before := append([]float64(nil), p.Data()...)
-		var r, r2 *canvas.Path
-		run := func() { r = p.Settle(rule); r2 = r.Settle(canvas.NonZero) }
+		var r, r2, r3 *canvas.Path
+		// the three entry points: Path.Settle, settling the settled path again, and Paths.Settle on the unsplit path
+		run := func() { r = p.Settle(rule); r2 = r.Settle(canvas.NonZero); r3 = canvas.Paths{build(s)}.Settle(rule) }
 		var kind string
 		var msg any
 		if guard {
@@ -177,7 +178,11 @@ func exec(s *Scenario, guard bool) (ms []core.Mismatch) {
 		if !equalData(before, p.Data()) {
 			ms = append(ms, core.Mismatch{Signature: "receiver-mutated", Detail: fmt.Sprintf("Settle(%s) changed its receiver: P=%s open=%v", name, s.svg(), s.Open)})
 		}
-		for pass, out := range []*canvas.Path{r, r2} {
+		before0 := len(ms)
+		for pass, out := range []*canvas.Path{r, r2, r3} {
+			if pass == 2 && len(ms) > before0 {
+				break // Path.Settle itself already deviates on this input: the Paths entry point is judged only where it is right
+			}
 			cs, err := oracle.FlattenData(out.Data(), 8)
 			if err != nil {
 				ms = append(ms, core.Mismatch{Signature: "result-undecodable", Detail: err.Error()})
@@ -186,6 +191,8 @@ func exec(s *Scenario, guard bool) (ms []core.Mismatch) {
 			what := "region"
 			if pass == 1 {
 				what = "idempotence"
+			} else if pass == 2 {
+				what = "paths-entry"
 			}
 			bad := -1
 			// a reflecting embedding negates every winding number: Positive and Negative swap
